@@ -658,6 +658,33 @@ func ingestParse(format string, body []byte, precision string, cfg *ingestCfg) (
 	}
 }
 
+// ingestEdge: 1 = the line-protocol body is padded with empty lines so that the newline of a valid line in the middle
+// of the body is the LAST byte of the reader's 64 KiB block; 2 = the same body shifted by one byte (control)
+var ingestEdge int
+
+func padToBlockEdge(body []byte, shifted bool) []byte {
+	const block = 64 * 1024
+	lines := bytes.SplitAfter(body, []byte("\n"))
+	k := len(lines) / 2
+	if k >= len(lines) {
+		return body
+	}
+	a := bytes.Join(lines[:k], nil)
+	x := lines[k]
+	b := bytes.Join(lines[k+1:], nil)
+	pad := block - len(a) - len(x)
+	if shifted {
+		pad++
+	}
+	if pad < 0 {
+		return body
+	}
+	out := append([]byte{}, a...)
+	out = append(out, bytes.Repeat([]byte("\n"), pad)...)
+	out = append(out, x...)
+	return append(out, b...)
+}
+
 func ingestBatch(rec *trace.Recorder, g *ingestGen, cfg *ingestCfg, format string, n int, fb *flatbuffers.Builder,
 	sum *trace.Summary, counts map[string]int, release bool) {
 	precision := ""
@@ -686,6 +713,9 @@ func ingestBatch(rec *trace.Recorder, g *ingestGen, cfg *ingestCfg, format strin
 		body = renderFlat(fb, ms, g.rng)
 	default:
 		body = renderInflux(ms, precision, g.rng)
+		if ingestEdge != 0 {
+			body = padToBlockEdge(body, ingestEdge == 2)
+		}
 	}
 	if err != nil {
 		sum.Unresolved = append(sum.Unresolved, "render: "+err.Error())
@@ -842,6 +872,16 @@ func ingestMain(args []string) int {
 			g.tagsets = [][][2][]byte{{}, {}, g.tagsets[0]}
 			rec.Reset(resetEvent("influx-notags", cfg))
 			ingestBatch(rec, g, cfg, "influx", 10, fb, sum, counts, false)
+		}
+		// influx-edge: a body larger than the reader's 64 KiB block with a line ending exactly on the block edge
+		for i := 0; i < *poolRounds; i++ {
+			cfg := mkCfg(r)
+			plain(cfg)
+			g := newIngestGen(r, cfg.limits, time.Now().UnixMilli(), cfg.behind, cfg.ahead)
+			rec.Reset(resetEvent("influx-edge", cfg))
+			ingestEdge = 1 + i%3/2 // two aligned bodies, then one shifted by a byte
+			ingestBatch(rec, g, cfg, "influx", 12, fb, sum, counts, false)
+			ingestEdge = 0
 		}
 		// flat-reqns: flat rows without a namespace in a request that names one
 		for i := 0; i < *poolRounds; i++ {
